@@ -61,6 +61,11 @@ pub fn run_plan<T: HCfg>(plan: &Value, detail: u8, emit: &mut dyn FnMut(&Value))
     let pause_ms = pu(plan, "pause_ms", 300);
     let p_stats = pf(plan, "p_stats", 0.0);
     let settle_ms = pu(plan, "settle_ms", 0);
+    // faults (loss, duplication, outages) stop at this time (ms after start); 0 = never.
+    // After it the run continues for `after_ms` on a perfect network (C05's settle phase).
+    let fault_until = pu(plan, "fault_until", 0);
+    let after_ms = pu(plan, "after_ms", 1500);
+    let mut marked = false;
     let start0 = 1_000_000u64;
 
     let mut outages: Vec<Outage> = plan
@@ -130,12 +135,20 @@ pub fn run_plan<T: HCfg>(plan: &Value, detail: u8, emit: &mut dyn FnMut(&Value))
         if now - start0 > max_ms {
             break;
         }
+        let faults_on = fault_until == 0 || now < start0 + fault_until;
+        if !faults_on && !marked {
+            marked = true;
+            emit(&json!({"a":"mark","what":"faults_over","t":now,"min_progress":pu(plan,"min_progress",20)}));
+        }
+        if marked && now >= start0 + fault_until + after_ms {
+            break;
+        }
         // finished?
         let done = (0..npeers)
             .filter(|&p| w.peers[p].alive && !w.peers[p].crashed && !w.peers[p].is_spec)
             .all(|p| cur_of(&w, p) >= frames);
         let any = (0..npeers).any(|p| w.peers[p].alive && !w.peers[p].crashed && !w.peers[p].is_spec);
-        if done || !any {
+        if (done && fault_until == 0) || !any {
             match finished_at {
                 None => finished_at = Some(now),
                 Some(t) if now >= t + settle_ms => break,
@@ -143,7 +156,7 @@ pub fn run_plan<T: HCfg>(plan: &Value, detail: u8, emit: &mut dyn FnMut(&Value))
             }
         }
         // random outages, rolled once per 100 ms
-        if out_rate > 0.0 && now >= last_out_roll + 100 {
+        if out_rate > 0.0 && faults_on && now >= last_out_roll + 100 {
             last_out_roll = now;
             for a in 0..npeers {
                 for b in 0..npeers {
@@ -252,17 +265,18 @@ pub fn run_plan<T: HCfg>(plan: &Value, detail: u8, emit: &mut dyn FnMut(&Value))
                 let sent: Vec<(u64, Addr, Addr, bool)> =
                     std::mem::take(&mut w.net.borrow_mut().tx_ids);
                 for (id, from, to, _is_input) in sent {
-                    let in_outage = outages
-                        .iter()
-                        .any(|o| o.from == from && o.to == to && o.start <= now && now < o.end);
-                    if in_outage || rng.gen::<f64>() < loss {
+                    let in_outage = faults_on
+                        && outages
+                            .iter()
+                            .any(|o| o.from == from && o.to == to && o.start <= now && now < o.end);
+                    if in_outage || (faults_on && rng.gen::<f64>() < loss) {
                         emit(&w.step(&json!({"a":"drop","from":from,"to":to,"id":id})));
                         continue;
                     }
                     let lat = rng.gen_range(lat_lo..=lat_hi);
                     hseq += 1;
                     heap.push(Reverse((now + lat, hseq, from, to, id)));
-                    if rng.gen::<f64>() < dup {
+                    if faults_on && rng.gen::<f64>() < dup {
                         let l = w.step(&json!({"a":"dup","from":from,"to":to,"id":id}));
                         if let Some(nid) = l["id"].as_u64() {
                             let lat2 = rng.gen_range(lat_lo..=lat_hi);
